@@ -54,8 +54,14 @@ def handle (req : Json) : Except String Json := do
     let specs ← (getArrD req "sort").toList.mapM (parseSort kinds)
     let pl := mkPlan specs
     let custom := c.plan.tree.custom
-    let needScores := pl.usesScore || custom
-    let dflt : Float := if pl.usesScore then 1.0 else 0.0
+    -- `search_segment` (since /repo 8218789): `ScoreMode::Score` whenever the sort uses the score,
+    -- a score hook is active, hits are returned or a collector is attached; before that commit a
+    -- pure field sort ran in match-only mode and every hit carried score 0.0.
+    -- `scan_segment` (since /repo a5f1a65): the default score of a term-less query is 1.0
+    -- whatever the sort (before: 0.0 under a field sort).
+    let returnHits := getBoolD req "return_hits" true
+    let needScores := pl.usesScore || custom || returnHits
+    let dflt : Float := 1.0
     let scored := c.segs.map (segScores c.pr c.plan needScores dflt)
     let keyed : List (List (Key × Float)) := (enumFrom 0 (c.segs.zip scored)).map fun (si, (seg, sc)) =>
       sc.map fun (d, s) =>
